@@ -34,6 +34,7 @@ struct Plan {
 	bool dash_o = false;
 	int stack_shift = 0;
 	int argv0 = 0;           // index into the list of program names (argv[0]) the compiler may be started under
+	int argstyle = 0;        // 0 separate options; 1 combined/attached short options; 2 "--" before the files; 3 -o given twice
 	int alt_name = 0;        // 0: input named as in the workload; else the same bytes under another path name
 	// allocator schedule
 	int placement = 0;       // 0 ascending, 1 descending
